@@ -55,6 +55,7 @@ type pathResult struct {
 }
 
 type pathState struct {
+	ranges  map[string]urange
 	ex      *explorer
 	w       *worker
 	prefix  []decision
@@ -410,6 +411,10 @@ func (ps *pathState) branch(c *term) bool {
 		ps.memoHits++
 		return v
 	}
+	if v, ok := ps.decideByRange(c); ok {
+		ps.memoHits++
+		return v
+	}
 	ps.nBranch++
 	if ps.pos < len(ps.prefix) {
 		d := ps.prefix[ps.pos]
@@ -569,6 +574,12 @@ func (ps *pathState) assume(c *term) {
 		panic(pathEnd{"assume", ""})
 	}
 	if v, ok := ps.known(c); ok {
+		if !v {
+			panic(pathEnd{"assume", ""})
+		}
+		return
+	}
+	if v, ok := ps.decideByRange(c); ok {
 		if !v {
 			panic(pathEnd{"assume", ""})
 		}
